@@ -304,6 +304,41 @@ func TestVerifC12(t *testing.T) {
 			}
 		}
 	}
+	// 4. the same rules on a connection that negotiated 1.1 (the session above runs at 1.0.1): ERROR_MESSAGE replies —
+	// "unsupported version" among them — to requests that carry a payload, each followed by an ordinary exchange
+	ses.stop()
+	ses = vstart(true)
+	defer ses.stop()
+	inbox = make(chan vframe, 1024)
+	go func(ses *vsession, inbox chan vframe) {
+		for {
+			f, err := ses.p.recv(time.Hour)
+			if err != nil {
+				close(inbox)
+				return
+			}
+			inbox <- f
+		}
+	}(ses, inbox)
+	negotiated := false
+	if f, ok := nextRequest(); ok && f.typ == int(MsgGetSupportedVersion) {
+		_ = ses.p.send(vframe{ver: 2, typ: int(MsgGetSupportedVersionResponse), id: f.id, payload: append([]byte{1, 2}, statusPayload(0, "", false, false)...)})
+		if f2, ok := nextRequest(); ok && f2.typ == int(MsgSetProtocolVersion) {
+			_ = ses.p.send(vframe{ver: 2, typ: int(MsgSetProtocolVersionResponse), id: f2.id, payload: statusPayload(0, "", false, false)})
+			negotiated = true
+		}
+	}
+	if !negotiated {
+		o.line("check-sendfor harness-negotiation-failed", "accept")
+		return
+	}
+	for _, code := range []int{110, 0, 100, 401, 110} {
+		for k := 0; k < 4; k++ {
+			exp := statusable[(code+k)%len(statusable)]
+			check(exp, em.TypeID, statusPayload(code, "v1.1", k%2 == 0, false))
+			check(exp, exp.TypeID, statusPayload(0, "", false, false))
+		}
+	}
 }
 
 type bytesBuffer struct{ b []byte }
